@@ -97,6 +97,12 @@ EvStream == /\ Ev("stream")
                               /\ Same(J(G!RFin(gens[E.g].ref, TRUE, FALSE)), E.r),
                       <<l, "stream", w>>)
             /\ UNCHANGED gens /\ Done
+(* C18: hash_stream over a reader delivering E.n zero bytes, then end of file or an error *)
+EvStreamZeros == /\ Ev("streamzeros")
+                 /\ Expect(IF E.fail THEN E.r.e = "io" /\ E.r.kind = "Other" /\ E.r.id = 77
+                           ELSE Same(J(G!RFin(ZerosState(E.n).ref, TRUE, FALSE)), E.r), <<l, "streamzeros">>)
+                 /\ Expect(E.reads_after_end = 0, <<l, "streamzeros-reads-after-end">>)
+                 /\ UNCHANGED gens /\ Done
 (* C18: hash_file.  what: regular | missing | dir | special (metadata size may differ from
    what is delivered: FIFO, procfs).  E.g holds the delivered bytes when a hash is expected *)
 EvFile == /\ Ev("file")
@@ -125,7 +131,7 @@ EvErrs == /\ Ev("errs")
                    /\ {E.op[i].name : i \in 1..Len(E.op)} = DOMAIN Msg!OperationErrorMsg
                    /\ \A i \in 1..Len(E.op) : E.op[i].msg = Msg!OperationErrorMsg[E.op[i].name], <<l, "error-texts">>)
           /\ UNCHANGED gens /\ Done
-Next == EvErrs \/ EvAnchor \/ EvStream \/ EvFile \/ EvEasy \/ EvRealZeros \/ EvSame \/ EvNew \/ EvZeros \/ EvClone \/ EvReset \/ EvUpd \/ EvFix \/ EvFin
+Next == EvErrs \/ EvAnchor \/ EvStream \/ EvStreamZeros \/ EvFile \/ EvEasy \/ EvRealZeros \/ EvSame \/ EvNew \/ EvZeros \/ EvClone \/ EvReset \/ EvUpd \/ EvFix \/ EvFin
 Spec == Init /\ [][Next]_vars
 Progress == Mark(l)
 =============================================================================
